@@ -164,13 +164,21 @@ def main():
                 dt = time.time() - t0
                 viol = [l for l in p.stdout.splitlines() if l.startswith("VIOLATION")]
                 classes = [l.strip().split()[0].replace("class=", "") for l in p.stdout.splitlines() if l.strip().startswith("class=")]
+                # how many of the runs violated (a mutant hit by one or two runs only is caught by luck)
+                hits = runs = None
+                try:
+                    ev = json.load(open(os.path.join(out_dir, "evidence", f"{prop}.json")))
+                    hits = sum(ev["coverage"].get("violation_classes", {}).values())
+                    runs = ev["coverage"].get("evaluations")
+                except Exception:  # noqa: BLE001
+                    pass
             finally:
                 shutil.rmtree(root, ignore_errors=True)
                 shutil.rmtree(out_dir, ignore_errors=True)
             caught = p.returncode == 1 and bool(viol)
-            meta.setdefault("checks", {})[a.tier] = {"caught": caught, "rc": p.returncode, "classes": classes, "wall_s": round(dt, 1), "cmd": " ".join(cmd[1:])}
+            meta.setdefault("checks", {})[a.tier] = {"caught": caught, "rc": p.returncode, "classes": classes, "wall_s": round(dt, 1), "cmd": " ".join(cmd[1:]), "violating_runs": hits, "runs": runs}
             save_meta(d, meta)
-            print(f"{'CAUGHT' if caught else 'MISSED'} {i} rc={p.returncode} {dt:.0f}s {classes}")
+            print(f"{'CAUGHT' if caught else 'MISSED'} {i} rc={p.returncode} {dt:.0f}s hits={hits}/{runs} {classes}")
             if not caught:
                 missed += 1
                 print("\n".join(p.stdout.splitlines()[-6:])[:1500])
